@@ -159,4 +159,12 @@ theorem monitor_changes_only_granted_sound (kv : KV) (c : Caller) (op : Op) (aok
     c01_changes_only_granted (MonSound.obsOf kv c op aok sok) = true :=
   MonSound.c01_changes_only_granted_sound kv c op aok sok h
 
+/-- T1: the identity a grant is looked up for is the connection's peer, and nothing the server
+remembers about earlier requests (see C08.fact_identity_from_connection for the wording) -/
+theorem fact_identity_from_connection :
+    Facts.identityRequestFields = ["Context", "RemoteAddr"] ∧
+    Facts.identityServerFields = ["whois"] ∧
+    Facts.identityWhoisArgs = ["r.Context()", "r.RemoteAddr"] := by
+  decide
+
 end Setec.C01
